@@ -417,10 +417,23 @@ impl QueryRouter {
     fn is_mutation_query(q: &sqlparser::ast::Query) -> bool {
         use sqlparser::ast::*;
 
+        // Data-modifying statements in WITH.
+        if let Some(with) = &q.with {
+            if with
+                .cte_tables
+                .iter()
+                .any(|cte| Self::is_mutation_query(&cte.query))
+            {
+                return true;
+            }
+        }
+
         match q.body.as_ref() {
             SetExpr::Insert(_) => true,
             SetExpr::Update(_) => true,
             SetExpr::Query(q) => Self::is_mutation_query(q),
+            // SELECT ... INTO creates a table.
+            SetExpr::Select(select) => select.into.is_some(),
             _ => false,
         }
     }
